@@ -25,6 +25,57 @@ def t_respparse():
         assert e, bad
 
 
+def t_respparse_sections_and_codes():
+    from .respparse import parse_stream
+
+    good = (b'* 1 FETCH (BODY[HEADER.FIELDS ("a)b" "c]d" SUBJECT)] {2}\r\n\r\n)\r\n'
+            b"A1 OK [COPYUID 7 1:2,5 9:11] done\r\nA2 OK [APPENDUID 7 12] done\r\n* OK [UIDNEXT 13] x\r\n")
+    _, errs, _ = parse_stream(good)
+    assert not errs, errs
+    for bad in (b"* 1 FETCH (BODY[HEADER.FIELDS (a)b c]d)] {2}\r\n\r\n)\r\n", b"A1 OK [COPYUID 7  ] done\r\n", b"A1 OK [COPYUID 7 1:2] done\r\n",
+                b'* 1 FETCH (BODY[HEADER.FIELDS ("a)] {2}\r\n\r\n)\r\n', b"* OK [UIDNEXT 0] x\r\n"):
+        _, e, _ = parse_stream(bad)
+        assert e, bad
+
+
+def t_cmdgrammar():
+    """The independent command recogniser on sentences taken from RFC 3501 / 4315 / 5258 / 6851 examples, and on near misses."""
+    import datetime
+
+    from .refmodel.cmdgrammar import classify_overacceptance, recognise
+
+    ok = {
+        'A003 APPEND saved-messages (\\Seen) {5}\r\nhello': ("append", {"flags": ["\\Seen"], "mailbox_name": "saved-messages", "message_raw": "hello"}),
+        "A654 FETCH 2:4 (FLAGS BODY[HEADER.FIELDS (DATE FROM)])": ("fetch", {"msg_set": [(2, 4)]}),
+        'A282 SEARCH FLAGGED SINCE 1-Feb-1994 NOT FROM "Smith"': ("search", {"search": ("and", [("keyword", "\\Flagged"), ("since", datetime.date(1994, 2, 1)),
+                                                                                             ("not", ("header", "from", "smith"))])}),
+        "A003 STORE 2:4 +FLAGS (\\Deleted)": ("store", {"store_action": "add", "flags": ["\\Deleted"], "silent": False}),
+        "a STORE 1 -flags.silent \\seen \\DELETED kw": ("store", {"store_action": "remove", "flags": ["\\Seen", "\\Deleted", "kw"], "silent": True}),
+        "A003 UID EXPUNGE 3000:3002": ("expunge", {"uid": True, "msg_set": [(3000, 3002)]}),
+        "a UID MOVE 42:69 foo": ("move", {"uid": True, "mailbox_name": "foo"}),
+        'A04 LIST (SUBSCRIBED RECURSIVEMATCH) "" "*" RETURN (CHILDREN)': ("list", {"sel": ["recursivematch", "subscribed"], "ret": ["children"]}),
+        'A01 LIST "" ("INBOX" "Drafts" "Sent/%") RETURN (STATUS (MESSAGES UNSEEN))': ("list", {"patterns": ["inbox", "Drafts", "Sent/%"], "status": ["messages", "unseen"]}),
+        "t}1 CREATE a}b": ("create", {"mailbox_name": "a}b"}),
+        'a ID ("name" "x" "version" NIL)': ("id", {"id": {"name": "x", "version": None}}),
+        "a FETCH 1 BODY.PEEK[1.2.MIME]<0.1>": ("fetch", {"fetch": [("body", [1, 2, "mime"], (0, 1), True)]}),
+    }
+    for line, (cmd, want) in ok.items():
+        v = recognise(line)
+        assert v[0] == "ok" and v[1]["command"] == cmd, (line, v)
+        for k, val in want.items():
+            assert v[1].get(k) == val, (line, k, v[1].get(k), val)
+    bad = ["a1", "a1 ", "a+ NOOP", "a1 NOOP x", "a1 FETCH 1", "a1 FETCH 0 FLAGS", "a1 FETCH 01 FLAGS", "a1 FETCH 1 ()", "a1 FETCH 1 BODY[MIME]", "a1 FETCH 1 BODY[1.]",
+           "a1 FETCH 1 BODY[]<1.0>", "a1 STORE 1 +FLAG (x)", "a1 STORE 1 FLAGS (])", "a1 SEARCH", "a1 SEARCH OR ALL", "a1 SEARCH ()", "a1 STATUS x ()",
+           "a1 LSUB (SUBSCRIBED) \"\" *", "a1 LIST (RECURSIVEMATCH) \"\" *", 'a1 APPEND x "hello"', "a1 APPEND x {9}\r\nshort", "a1 UID NOOP", "a1 SELECT a b",
+           "a1 COPY 1:2:5 x", "a1 SEARCH KEYWORD \\Seen", 'a1 CREATE "un"terminated"']
+    for line in bad:
+        assert recognise(line)[0] == "bad", line
+    assert recognise("a1 SEARCH ON 31-Feb-2020")[0] == "dontcare"
+    assert classify_overacceptance("a1 FETCH 1 BODY[1.]") == "section-trailing-dot"
+    assert classify_overacceptance("a1 FETCH 1 ()") == "empty-fetch-list"
+    assert classify_overacceptance("a1 NOOP x") is None
+
+
 def t_sets():
     from .refmodel import sets as S
 
